@@ -12,6 +12,7 @@
 -/
 import CGV.Model.Mol
 import CGV.Gen.Valence
+import CGV.Model.Stereo
 namespace CGV
 open Mol
 
@@ -260,6 +261,7 @@ deriving Repr
 def phaseB (allAtom : Bool) (mg : Meta) (mol : Mol) : Py StepOut := do
   let mol ← if allAtom then rebuildH mol else pure mol
   let (mol, _) := sortNodes mol
+  let mol ← if allAtom then annotateEZ mol else pure mol
   let coarse := mg.nodes.map fun mn => (mn.key, membersOf mol mn.key)
   let mol := if allAtom then setNames mol mg else mol
   pure ⟨mol, coarse⟩
